@@ -3,8 +3,10 @@ package main
 import (
 	"fmt"
 	"go/ast"
+	"go/constant"
 	"go/token"
 	"go/types"
+	"regexp"
 	"strings"
 )
 
@@ -24,6 +26,19 @@ func (env *Env) call(x *ast.CallExpr) Val {
 		}
 	}
 	if env.globalInit {
+		// regexp.MustCompile on a literal pattern: the number of capture groups is computed with the real library
+		if se, ok := unparen(x.Fun).(*ast.SelectorExpr); ok && se.Sel.Name == "MustCompile" && len(x.Args) == 1 {
+			if tv, ok := info.Types[x.Args[0]]; ok && tv.Value != nil && tv.Value.Kind() == constant.String {
+				if re, err := regexp.Compile(constant.StringVal(tv.Value)); err == nil {
+					t := env.typeOf(x)
+					r := env.c.fresh("regexp", env.ss().SortOf(t))
+					env.c.declOnce(fmt.Sprintf("(declare-fun numSubexp (%s) Int)", r.Sort))
+					env.st.Assume(eq(app("numSubexp", r.S), fmt.Sprint(re.NumSubexp())))
+					env.st.Assume(app(r.Sort+".nonnil", r.S))
+					return Val{T: r, GoT: t}
+				}
+			}
+		}
 		t := env.typeOf(x)
 		if t == nil {
 			env.fail(x.Pos(), "call in initializer")
@@ -267,6 +282,16 @@ func (env *Env) callSpec(x *ast.CallExpr, fn *types.Func, spec *FuncSpec, recvEx
 		c.oblige(env.st, "pre@"+ord, lbl, g, props, r.Expr)
 		c.curPos = save
 	}
+	if spec.NoReturn {
+		// the callee never returns (os.Exit, log.Fatal): its preconditions were checked, the path ends here
+		c.runGhosts(env.st, "at noreturn "+ord, x.Pos())
+		env.st.dead = true
+		sigr := fn.Type().(*types.Signature).Results()
+		if sigr.Len() == 0 {
+			return Val{}
+		}
+		env.fail(x.Pos(), "noreturn function with results")
+	}
 	// snapshot for old()
 	oldSt := env.st
 	modGhost := false
@@ -310,6 +335,21 @@ func (env *Env) callSpec(x *ast.CallExpr, fn *types.Func, spec *FuncSpec, recvEx
 		}
 		pv := pre[m].T
 		si := env.ss().Info(pv.Sort)
+		if si != nil && si.Kind == KSlice {
+			// the callee writes the elements of a slice argument in place (e.g. sort.Strings): same length, new content
+			narr := c.fresh(m+"_post", fmt.Sprintf("(Array Int %s)", si.Elem))
+			ns := env.ss().mkSlice(pv.Sort, narr.S, env.ss().slLen(pv).S, env.ss().slOwn(pv))
+			post[m] = Val{T: ns, GoT: ai.typ}
+			if ai.expr != nil && isAddressable(ai.expr) {
+				if !env.rootInModifies(ai.expr) {
+					env.safe("frame:call", x.Pos(), env.ss().slOwn(pv), "slice handed to a callee that writes its elements is owned by this call or listed in modifies")
+				}
+				wbs = append(wbs, wb{env.lvalue(ai.expr), ns})
+			} else {
+				c.unsupported(x.Pos(), "callee %s writes the elements of %s but the argument is not an addressable location", spec.Key, m)
+			}
+			continue
+		}
 		if si == nil || si.Kind != KPtr {
 			env.fail(x.Pos(), "modifies %s: not a pointer parameter", m)
 		}
@@ -849,6 +889,10 @@ func (env *Env) specCall(x *ast.CallExpr) Val {
 		v := env.term(arg(0), x.Pos())
 		env.c.declOnce("(declare-fun uptr.ofaddr ((_ BitVec 64)) UPtr)")
 		return Val{T: Term{app("uptr.ofaddr", v.S), "UPtr"}}
+	case "numSubexp":
+		v := env.term(arg(0), x.Pos())
+		env.c.declOnce(fmt.Sprintf("(declare-fun numSubexp (%s) Int)", v.Sort))
+		return Val{T: Term{app("numSubexp", v.S), SInt}}
 	case "uptrTo":
 		// uptrTo(x, T): the *T value an unsafe.Pointer was converted from
 		v := env.term(arg(0), x.Pos())
